@@ -4,7 +4,7 @@ P="$1"; shift
 W=/tmp/wt-verify
 if [ ! -d "$W" ]; then git -C /repo worktree add -q "$W" HEAD || exit 3; fi
 git -C "$W" checkout -q --detach "$(git -C /repo rev-parse HEAD)" 2>/dev/null
-git -C "$W" checkout -q -- . && git -C "$W" clean -fdq -e target
+git -C "$W" reset -q --hard HEAD && git -C "$W" clean -fdq -e target
 if ! git -C "$W" apply --3way "$P" 2>/tmp/try_patch.err && ! git -C "$W" apply "$P" 2>>/tmp/try_patch.err; then echo "PATCH-DOES-NOT-APPLY $P"; cat /tmp/try_patch.err | head -5; exit 4; fi
 rc=0
 for id in "$@"; do
